@@ -45,12 +45,16 @@ public:
     Stage getDependsOnStageVirtual(int) const override { return Stage::Time; }
     void calcCachedValueVirtual(const State& s, int, T& value) const override {
         if (f && f->armed) { if (++f->evals == f->throwAt) { f->fired++; throw std::runtime_error("injected transient measure failure"); } }
-        value = a * std::sin(b * s.getTime() + c);
+        fill(value, s.getTime());
     }
+    // component k of an aggregate: a(1+0.3k) sin(b(1+0.5k) t + c + k)
+    static double comp(double a, double b, double c, int k, double t, int d) { double A = a * (1 + 0.3 * k), B = b * (1 + 0.5 * k), th = B * t + c + k; return d == 0 ? A * std::sin(th) : d == 1 ? A * B * std::cos(th) : -A * B * B * std::sin(th); }
+    void fill(Real& v, double t) const { v = a * std::sin(b * t + c); }
+    void fill(Vec3& v, double t) const { for (int k = 0; k < 3; ++k) v[k] = comp(a, b, c, k, t, 0); }
     double a = 1, b = 1, c = 0; MeasFault* f = nullptr;
 };
 
-struct Derived { int kind; int operand; double p1 = 0; int flags = 0; };   // 0 integrate(ic=p1), 1 maximum, 2 minimum, 3 maxabs, 4 minabs, 5 delay(p1), 6 differentiate
+struct Derived { int kind; int operand; double p1 = 0; int flags = 0; int over = -1; double va = 1, vb = 1, vc = 0; };   // over >= 0: the operand is the Integrate measure D[over] (nested stateful measures); kinds 7 (Vec3 extreme, flags = which) and 8 (Vec3 delay) have their own Vec3 operand va,vb,vc   // 0 integrate(ic=p1), 1 maximum, 2 minimum, 3 maxabs, 4 minabs, 5 delay(p1), 6 differentiate
 
 struct C23 : vf::Engine {
     const char* property() const override { return "C23"; }
@@ -84,8 +88,12 @@ struct C23 : vf::Engine {
         }
         int nd = r.range(1, 4);
         for (int i = 0; i < nd; ++i) {
-            Op o = vf::mkop("meas"); int k = (int)r.below(7);
+            Op o = vf::mkop("meas"); int k = (int)r.below(9);
             o.set("kind", k).set("operand", (int)r.below(nn));
+            // a stateful measure over an earlier Integrate measure (nested): the Integrate is then read by a consumer during the step
+            if (k >= 1 && k <= 6 && i > 0 && r.chance(0.45)) o.set("over", (int)r.below(i));
+            if (k == 7) o.set("flags", (int)r.below(4)).setr("va", r.uni(0.5, 2)).setr("vb", r.uni(0.5, 5)).setr("vc", r.uni(-3, 3));
+            if (k == 8) o.setr("p", r.pick(std::vector<double>{0.003, 0.02, 0.05, 0.1, 0.3})).set("flags", (int)r.below(4)).setr("va", r.uni(0.5, 2)).setr("vb", r.uni(0.5, 5)).setr("vc", r.uni(-3, 3));
             if (k == 0) o.setr("p", r.uni(-1, 1));
             if (k == 5) o.setr("p", r.pick(std::vector<double>{0.001, 0.003, 0.02, 0.05, 0.1, 0.3, 0.7})).set("flags", (int)r.below(4));
             if (k == 6) o.set("flags", (int)r.below(2));
@@ -138,11 +146,18 @@ struct C23 : vf::Engine {
             tr.n.push_back(x);
         }
         if (tr.n.empty()) { Node x; x.type = 1; tr.n.push_back(x); M.push_back(Measure::Time(sub)); }
-        std::vector<Derived> D; std::vector<Measure> DM;
+        std::vector<Derived> D; std::vector<Measure> DM; std::vector<Measure_<Vec3>> VM;   // VM[i] is set for the Vec3 kinds (7, 8); DM[i] is then a placeholder
         for (auto& op : p.ops) {
             if (op.kind != "meas") continue;
-            Derived d; d.kind = (int)(op.num("kind", 1) % 7); d.operand = (int)(op.num("operand", 0) % tr.n.size()); d.p1 = op.real("p", 0.1); d.flags = (int)op.num("flags", 0);
-            const Measure& o = M[d.operand];
+            Derived d; d.kind = (int)(op.num("kind", 1) % 9); d.operand = (int)(op.num("operand", 0) % tr.n.size()); d.p1 = op.real("p", 0.1); d.flags = (int)op.num("flags", 0);
+            d.va = op.real("va", 1); d.vb = std::max(0.3, std::abs(op.real("vb", 1))); d.vc = op.real("vc", 0);
+            if (op.has("over") && d.kind >= 1 && d.kind <= 6 && !D.empty()) { int ov = (int)(op.num("over", 0) % D.size()); if (D[ov].kind == 0 && D[ov].over < 0) { d.over = ov; d.operand = D[ov].operand; } }
+            const Measure& o = d.over >= 0 ? DM[d.over] : M[d.operand];
+            if (d.kind >= 7) { HMeas<Vec3> hv(sub); hv.updImpl().a = d.va; hv.updImpl().b = d.vb; hv.updImpl().c = d.vc; hv.updImpl().f = nullptr;
+                VM.resize(D.size() + 1);
+                if (d.kind == 7) { switch (d.flags % 4) { case 0: VM.back() = Measure_<Vec3>::Maximum(sub, hv); break; case 1: VM.back() = Measure_<Vec3>::Minimum(sub, hv); break; case 2: VM.back() = Measure_<Vec3>::MaxAbs(sub, hv); break; default: VM.back() = Measure_<Vec3>::MinAbs(sub, hv); } }
+                else { d.p1 = std::max(1e-3, std::abs(d.p1)); Measure_<Vec3>::Delay dl(sub, hv, d.p1); if (d.flags & 1) dl.setUseLinearInterpolationOnly(true); if (d.flags & 2) dl.setCanUseCurrentValue(true); VM.back() = dl; }
+                DM.push_back(Measure::Constant(sub, 0)); D.push_back(d); continue; }
             switch (d.kind) {
             case 0: DM.push_back(Measure::Integrate(sub, o, Measure::Constant(sub, d.p1))); break;
             case 1: DM.push_back(Measure::Maximum(sub, o)); break;
@@ -154,10 +169,11 @@ struct C23 : vf::Engine {
                 // forcing the approximation on an operand that depends on no stage (Constant, Variable) makes
                 // Differentiate::initializeVirtual call System::realize(state, Stage::Empty/Model), which throws: observation, not generated
                 std::function<bool(int)> timeDep = [&](int i) { const Node& x = tr.n[i]; return x.type == 1 || x.type == 2 || x.type == 7 || (x.type >= 3 && x.type <= 5 && (timeDep(x.l) || (x.type != 5 && timeDep(x.r)))); };
-                if ((d.flags & 1) && timeDep(d.operand)) df.setForceUseApproximation(true); DM.push_back(df); break; }
+                if ((d.flags & 1) && (d.over >= 0 || timeDep(d.operand))) df.setForceUseApproximation(true); DM.push_back(df); break; }
             }
             D.push_back(d);
         }
+        VM.resize(D.size());
         State init = sys.realizeTopology();
         for (size_t v = 0; v < vars.size(); ++v) vars[v].setValue(init, tr.n[varNode[v]].a);   // non-default value through the public setter
         sys.realizeModel(init);
@@ -177,7 +193,7 @@ struct C23 : vf::Engine {
             // its auto-update variable is allocated as invalidating the operand's stage (Empty/Model), so initializing
             // it knocks the State back below Model and Integrator::initialize() fails.
             bool diffConst = false;
-            for (size_t i = 0; i < D.size(); ++i) if (D[i].kind == 6 && Measure::Differentiate::getAs(DM[i]).isUsingApproximation() && M[D[i].operand].getDependsOnStage() < Stage::Time) diffConst = true;
+            for (size_t i = 0; i < D.size(); ++i) if (D[i].kind == 6 && D[i].over < 0 && Measure::Differentiate::getAs(DM[i]).isUsingApproximation() && M[D[i].operand].getDependsOnStage() < Stage::Time) diffConst = true;
             if (diffConst && std::string(e.what()).find("at least Model") != std::string::npos) { res.fail("differentiate-stage-independent-operand", "measure=Differentiate approx operand-stage<Time", std::string("Integrator::initialize fails: ") + e.what()); return res; }
             res.inconclusive = true; res.detail = std::string("initialize failed: ") + e.what(); return res; }
         const double acc = integ->getAccuracyInUse();
@@ -185,17 +201,24 @@ struct C23 : vf::Engine {
 
         double t0 = tStart;                       // start of the current study (last initialize)
         std::vector<double> lowMax(D.size(), -Infinity), lowMin(D.size(), Infinity), lowMaxAbs(D.size(), -Infinity), lowMinAbs(D.size(), Infinity);
-        auto resetEpoch = [&](double t) { t0 = t; for (size_t i = 0; i < D.size(); ++i) { lowMax[i] = lowMaxAbs[i] = -Infinity; lowMin[i] = lowMinAbs[i] = Infinity; } };
+        std::vector<Vec3> vLow(D.size());
+        auto resetEpoch = [&](double t) { t0 = t; for (size_t i = 0; i < D.size(); ++i) { lowMax[i] = lowMaxAbs[i] = -Infinity; lowMin[i] = lowMinAbs[i] = Infinity; bool isMax = D[i].kind == 7 && (D[i].flags % 4 == 0 || D[i].flags % 4 == 2); vLow[i] = Vec3(isMax ? -Infinity : Infinity); } };
         resetEpoch(tStart);
         int nret = 0; long measFaultFired = 0, retried = 0; bool sawInterp = false; long rejectedBefore = 0;
         // true extreme of node i over [a,b] by fine sampling; 'slack' bounds what lies between samples
-        auto trueExt = [&](int node, double a, double b, int what, double& slack) {
+        // the operand of derived measure d as a closed form: a tree node, or (nested) the Integrate measure D[d.over]
+        auto gEv = [&](const Derived& d, double t, int der) { if (d.over < 0) return tr.ev(d.operand, t, der); const Derived& I = D[d.over]; return der == 0 ? I.p1 + tr.ev(I.operand, t, -1) - tr.ev(I.operand, t0, -1) : tr.ev(I.operand, t, der - 1); };
+        auto gBound = [&](const Derived& d, int der, double a, double b) { if (d.over < 0) return tr.bound(d.operand, der, a, b); if (der >= 1) return tr.bound(D[d.over].operand, der - 1, a, b);
+            double m = 0; for (int k = 0; k <= 400; ++k) m = std::max(m, std::abs(gEv(d, a + (b - a) * k / 400.0, 0))); return 1.1 * m + 1e-12; };
+        // how far the library's Integrate may be from the closed-form integral (the statement: 'to integrator accuracy')
+        auto intTol = [&](const Derived& I, double t) { double fm = tr.bound(I.operand, 0, t0, T), f1m = tr.bound(I.operand, 1, t0, T); return errorControlled ? 1000 * acc * (t - t0 + 0.1) * (fm + 1) + 1e-9 : 2 * h * (f1m + fm) * (t - t0 + h) + 1e-9; };
+        auto trueExtF = [&](const std::function<double(double)>& fn, double b1, double b2, double a, double b, int what, double& slack) {
             int N = (int)std::min(20000.0, std::max(50.0, std::ceil((b - a) / 2e-4))); double dx = (b - a) / N; double best = what == 0 || what == 2 ? -Infinity : Infinity;
             double prev = 0;
-            for (int k = 0; k <= N; ++k) { double raw = tr.ev(node, a + dx * k, 0), v = what >= 2 ? std::abs(raw) : raw; best = (what == 0 || what == 2) ? std::max(best, v) : std::min(best, v);
+            for (int k = 0; k <= N; ++k) { double raw = fn(a + dx * k), v = what >= 2 ? std::abs(raw) : raw; best = (what == 0 || what == 2) ? std::max(best, v) : std::min(best, v);
                 if (what == 3 && k > 0 && ((prev < 0) != (raw < 0))) best = 0;      // |f| reaches 0 at a sign change: not smooth there
                 prev = raw; }
-            slack = tr.bound(node, 2, a, b) * dx * dx / 8 + tr.bound(node, 1, a, b) * 1e-12 + 1e-9; return best; };
+            slack = b2 * dx * dx / 8 + b1 * 1e-12 + 1e-9; return best; };
 
         auto checkState = [&](const State& s, bool interpolated, const std::string& ctx) {
             const double t = s.getTime();
@@ -218,21 +241,40 @@ struct C23 : vf::Engine {
                 try { got = val(M[i], f1); } catch (const std::exception& e) { res.fail("measure-threw", isig + " measure=formula", std::string("getValue threw: ") + e.what() + ctx); return; }
                 if (!(std::abs(got - want) <= 1e-11 * (1 + std::abs(want)))) res.fail("formula-wrong", isig + " measure=formula type=" + std::to_string(tr.n[i].type) + (f1 ? " after-transient-failure" : ""), "node " + std::to_string(i) + " (type " + std::to_string(tr.n[i].type) + ") = " + S(got) + " expected " + S(want) + ctx);
             }
+            int integrateOrdinal = 0;
             for (size_t i = 0; i < D.size() && !res.violation; ++i) {
-                const Derived& d = D[i]; bool f1 = false; double got;
+                const Derived& d = D[i]; bool f1 = false; double got = 0;
+                std::string ms = isig + (d.over >= 0 ? " nested-over-Integrate" : "") + " measure=";
+                if (d.kind >= 7) {      // Vec3 operands: every element is held to the scalar definition
+                    Vec3 gv; try { gv = VM[i].getValue(s); } catch (const std::exception& e) { res.fail("measure-threw", ms + "vec", std::string("getValue threw: ") + e.what() + ctx); return; }
+                    for (int k = 0; k < 3 && !res.violation; ++k) {
+                        const double A = std::abs(d.va) * (1 + 0.3 * k), B = d.vb * (1 + 0.5 * k); auto fk = [&](double x) { return HMeas<Vec3>::Implementation::comp(d.va, d.vb, d.vc, k, x, 0); };
+                        if (d.kind == 7) { int what = d.flags % 4; double slack; double ext = trueExtF(fk, A * B, A * B * B, t0, std::max(t, t0), what, slack); const char* nm[] = {"Maximum", "Minimum", "MaxAbs", "MinAbs"};
+                            double g = what >= 2 ? std::abs(gv[k]) : gv[k], cur = what >= 2 ? std::abs(fk(t)) : fk(t); bool isMax = what == 0 || what == 2; double lowNow = isMax ? std::max(vLow[i][k], cur) : std::min(vLow[i][k], cur);
+                            if (isMax ? !(g <= ext + slack) : !(g >= ext - slack)) res.fail("extreme-beyond-trajectory", ms + nm[what] + "<Vec3>", std::string(nm[what]) + "<Vec3> element " + std::to_string(k) + " = " + S(gv[k]) + " but that element's true extreme over [" + S(t0) + "," + S(t) + "] is " + S(ext) + ctx);
+                            else if (isMax ? !(g >= lowNow - 1e-9 * (1 + std::abs(lowNow))) : !(g <= lowNow + 1e-9 * (1 + std::abs(lowNow)))) res.fail("extreme-lost-update", ms + nm[what] + "<Vec3>", std::string(nm[what]) + "<Vec3> element " + std::to_string(k) + " = " + S(gv[k]) + " but that element already reached " + S(lowNow) + " at a returned state of this study" + ctx);
+                            if (!interpolated) vLow[i][k] = lowNow; }
+                        else { double td = t - d.p1; double want = td <= t0 ? fk(t0) : fk(td); double tol = 2 * A * B * B * h * h + 1e-9; if (td > t0 && (td - t0 < 3 * h || t - t0 < 3 * h)) tol += A * B * h;
+                            if (!(std::abs(gv[k] - want) <= tol)) res.fail(std::isnan(gv[k]) ? "delay-nan" : "delay-wrong", ms + "Delay<Vec3>", "Delay<Vec3>(" + S(d.p1) + ") element " + std::to_string(k) + " = " + S(gv[k]) + " expected " + S(want) + " (tolerance " + S(tol) + ")" + ctx); }
+                    }
+                    continue;
+                }
                 try { got = val(DM[i], f1); } catch (const std::exception& e) { res.fail("measure-threw", isig + " measure=" + std::to_string(d.kind), std::string("getValue threw: ") + e.what() + ctx); return; }
-                const int o = d.operand; const double f = tr.ev(o, t, 0);
-                std::string ms = isig + " measure=";
+                const double f = gEv(d, t, 0); const double nestTol = d.over >= 0 ? intTol(D[d.over], t) : 0.0;
                 switch (d.kind) {
-                case 0: { double want = d.p1 + tr.ev(o, t, -1) - tr.ev(o, t0, -1);
-                    double fm = tr.bound(o, 0, t0, T), f1m = tr.bound(o, 1, t0, T);
-                    double tol = errorControlled ? 1000 * acc * (t - t0 + 0.1) * (fm + 1) + 1e-9 : 2 * h * (f1m + fm) * (t - t0 + h) + 1e-9;
+                case 0: { double want = d.p1 + tr.ev(d.operand, t, -1) - tr.ev(d.operand, t0, -1);
+                    double tol = intTol(d, t);
                     if (!(std::abs(got - want) <= tol)) res.fail("integrate-wrong", ms + "Integrate", "Integrate = " + S(got) + " expected " + S(want) + " (tolerance " + S(tol) + ", study started at " + S(t0) + ")" + ctx);
-                    break; }
+                    // the value an Integrate measure reports for a state IS that state's z for it (z's are allocated in measure order; the harness system has no z of its own)
+                    // (probe only) the reported value can be a stale copy of the state's z for it: within accuracy, so not a matter for this property; see the C16 known finding
+                    else if (integrateOrdinal < s.getNZ() && got != s.getZ()[integrateOrdinal]) res.count("probe_integrate_value_is_stale_copy_of_z");
+                    ++integrateOrdinal; break; }
                 case 1: case 2: case 3: case 4: {
-                    int what = d.kind == 1 ? 0 : d.kind == 2 ? 1 : d.kind == 3 ? 2 : 3; double slack; double ext = trueExt(o, t0, std::max(t, t0), what, slack);
+                    int what = d.kind == 1 ? 0 : d.kind == 2 ? 1 : d.kind == 3 ? 2 : 3; double slack; double ext = trueExtF([&](double x) { return gEv(d, x, 0); }, gBound(d, 1, t0, std::max(t, t0 + 1e-9)), gBound(d, 2, t0, std::max(t, t0 + 1e-9)), t0, std::max(t, t0), what, slack);
+                    slack += nestTol;
                     double g = what >= 2 ? std::abs(got) : got; const char* nm[] = {"Maximum", "Minimum", "MaxAbs", "MinAbs"};
-                    double cur = what >= 2 ? std::abs(f) : f;
+                    // for a nested operand "what the operand reached at returned states" is what the library's own Integrate reported there
+                    double curRaw = d.over >= 0 ? DM[d.over].getValue(s) : f; double cur = what >= 2 ? std::abs(curRaw) : curRaw;
                     double& low = what == 0 ? lowMax[i] : what == 1 ? lowMin[i] : what == 2 ? lowMaxAbs[i] : lowMinAbs[i];
                     bool isMax = what == 0 || what == 2;
                     double lowNow = isMax ? std::max(low, cur) : std::min(low, cur);
@@ -240,19 +282,20 @@ struct C23 : vf::Engine {
                     if (isMax ? !(g <= ext + slack) : !(g >= ext - slack)) res.fail("extreme-beyond-trajectory", ms + nm[what], std::string(nm[what]) + " = " + S(got) + " but the operand's true extreme over [" + S(t0) + "," + S(t) + "] is " + S(ext) + ctx);
                     // short of what was seen at this and earlier returned step states: an update was lost
                     else if (isMax ? !(g >= lowNow - 1e-9 * (1 + std::abs(lowNow))) : !(g <= lowNow + 1e-9 * (1 + std::abs(lowNow)))) res.fail("extreme-lost-update", ms + nm[what], std::string(nm[what]) + " = " + S(got) + " but the operand already reached " + S(lowNow) + " at a returned state of this study" + ctx);
-                    if (what >= 2 && !res.violation) { /* the value must be an actual operand value of that magnitude: sign unconstrained here */ }
                     if (!interpolated) low = lowNow;
                     break; }
-                case 5: { double td = t - d.p1; double want = td <= t0 ? tr.ev(o, t0, 0) : tr.ev(o, td, 0);
-                    double f2 = tr.bound(o, 2, t0, T), f1m = tr.bound(o, 1, t0, T);
-                    double tol = 2 * f2 * h * h + 1e-9; if (td > t0 && td - t0 < 3 * h) tol += f1m * h;     // buffer still short right after the start
+                case 5: { double td = t - d.p1; double want = td <= t0 ? gEv(d, t0, 0) : gEv(d, td, 0);
+                    double f2 = gBound(d, 2, t0, T), f1m = gBound(d, 1, t0, T);
+                    double tol = 2 * f2 * h * h + 1e-9 + nestTol; if (td > t0 && td - t0 < 3 * h) tol += f1m * h;     // buffer still short right after the start
                     if (td > t0 && t - t0 < 3 * h) tol += f1m * h;
                     if (!(std::abs(got - want) <= tol)) res.fail(std::isnan(got) ? "delay-nan" : "delay-wrong", ms + "Delay", "Delay(" + S(d.p1) + ") = " + S(got) + " expected operand(t-delay) = " + S(want) + " (tolerance " + S(tol) + ", max step " + S(h) + ", study started at " + S(t0) + ")" + ctx);
                     break; }
-                default: { Measure::Differentiate df = Measure::Differentiate::getAs(DM[i]); double want = tr.ev(o, t, 1);
+                default: { Measure::Differentiate df = Measure::Differentiate::getAs(DM[i]); double want = gEv(d, t, 1);
                     double tol;
                     if (!df.isUsingApproximation()) tol = 1e-9 * (1 + std::abs(want));
-                    else { double f2 = tr.bound(o, 2, t0, T), f3 = tr.bound(o, 3, t0, T), f1m = tr.bound(o, 1, t0, T); tol = 4 * (t - t0 + 1) * h * (2 * f2 + f3) + (t - t0 < 3 * h ? f1m : 0) + 1e-9; if (t == t0) tol += f1m; }
+                    else { double f2 = gBound(d, 2, t0, T), f3 = gBound(d, 3, t0, T), f1m = gBound(d, 1, t0, T); tol = 4 * (t - t0 + 1) * h * (2 * f2 + f3) + (t - t0 < 3 * h ? f1m : 0) + 1e-9; if (t == t0) tol += f1m; }
+                    // a numerical derivative of the library's own Integrate amplifies that measure's integration error by 1/h: no sound bound, not checked
+                    if (d.over >= 0 && df.isUsingApproximation()) break;
                     if (!(std::abs(got - want) <= tol)) res.fail(std::isnan(got) ? "differentiate-nan" : "differentiate-wrong", ms + "Differentiate" + (df.isUsingApproximation() ? " approx" : " exact"), "Differentiate = " + S(got) + " expected " + S(want) + " (tolerance " + S(tol) + ")" + ctx);
                     break; }
                 }
@@ -295,7 +338,7 @@ struct C23 : vf::Engine {
         long rejected = integ->getNumErrorTestFailures() + integ->getNumConvergenceTestFailures();
         res.count("probe_rejected_steps", rejected); res.count("fault_eval_throw", ctl.firedThrow); res.count("fault_measure_transient_failure", mf.fired); res.count("probe_retried_after_measure_failure", retried);
         res.count("returns_checked", nret);
-        bool hasStateful = false; for (auto& d : D) if (d.kind >= 1) hasStateful = true;
+        bool hasStateful = false; for (auto& d : D) { if (d.kind >= 1) hasStateful = true; if (d.over >= 0) res.count("probe_nested_over_integrate"); if (d.kind >= 7) res.count("probe_vec3_measure"); }
         res.simtime = integ->getAdvancedTime() - tStart;
         res.nontrivial = hasStateful && sawInterp && rejected >= 1;
         res.key = key.h; res.hash = hash.h;
